@@ -409,3 +409,57 @@ Proof.
   cbn zeta. split; [|split; [reflexivity|split; vm_compute; reflexivity]].
   repeat split; cbn; try lia. repeat constructor; lia.
 Qed.
+
+(* ------------------------------------------------------------------ *)
+(* Flowspec, SR Policy, Route Target Constraint                          *)
+From RB Require Import Proofs.ApiX.
+
+Theorem C17_flowspec_roundtrip :
+  forall v6p v6r n, v6_contract v6p v6r -> wf_fs n ->
+    fs_from_api v6r (fs_family n) (fs_to_api v6p n) = Some n.
+Proof. exact fs_roundtrip. Qed.
+
+Theorem C17_flowspec_from_api_preserves_wf :
+  forall v6r family x n, v6_range v6r -> api_fs_in_range x -> fs_from_api v6r family x = Some n -> wf_fs n.
+Proof. intros v6r family x n. exact (fs_from_api_wf (fun _ => []) v6r family x n). Qed.
+
+Theorem C17_srpolicy_roundtrip_and_wf :
+  (forall n, wf_srp n -> srp_from_api (srp_to_api n) = Some n)
+  /\ (forall l d c e n, u32_ok d -> u32_ok c -> bytes_ok e -> srp_from_api (ASrP l d c e) = Some n -> wf_srp n).
+Proof. split; [exact srp_roundtrip|exact srp_from_api_wf]. Qed.
+
+Theorem C17_rtc_roundtrip_outside_known :
+  forall n, wf_rtc n -> ~ Known_C17_rtc n -> rtc_from_api (rtc_to_api n) = Some n.
+Proof. exact rtc_roundtrip_outside_known. Qed.
+
+Theorem C17_rtc_roundtrip_refuted :
+  exists n, wf_rtc n /\ Known_C17_rtc n /\ rtc_from_api (rtc_to_api n) <> Some n.
+Proof. exact rtc_roundtrip_refuted. Qed.
+
+Theorem C17_rtc_from_api_preserves_wf :
+  forall a rt n, u32_ok a -> rtc_from_api (ARtc a rt) = Some n -> wf_rtc n.
+Proof. exact rtc_from_api_wf. Qed.
+
+Example flowspec_example :
+  let n := FsN false (Some (RD2 65000 1))
+               [FsPfx 1 167772160 8 0; FsOps 3 [(129, 6)]; FsOps 5 [(3, 80); (197, 8080)]] in
+  wf_fs n /\ fs_from_api toy_r (fs_family n) (fs_to_api toy_p n) = Some n
+  /\ api_fs_in_range (fs_to_api toy_p n)
+  /\ fs_from_api v6_parse 65669 (AFs [FRPrefix 1 33 [49; 48; 46; 48; 46; 48; 46; 48] 0]) = None
+  /\ fs_from_api v6_parse 65669 (AFs [FRComp 5 []]) = None
+  /\ fs_from_api v6_parse 65669 (AFs [FRComp 5 [(1, 6)]]) = Some (FsN false None [FsOps 5 [(129, 6)]]).
+Proof.
+  cbn zeta. split; [|split; [vm_compute; reflexivity|split; [|repeat split; vm_compute; reflexivity]]].
+  - split; [|split; [cbn; lia|vm_compute; discriminate]].
+    repeat constructor; cbn; unfold wf_prefix, wf_op_bits; repeat split; try lia; try reflexivity; try (left; reflexivity).
+  - cbn. split; [unfold u32_ok; lia|]. repeat constructor; cbn; lia.
+Qed.
+
+Example rtc_srp_example :
+  wf_rtc (RtcExact 65001 [1; 2; 192; 0; 2; 1; 0; 100]) /\ ~ Known_C17_rtc (RtcExact 65001 [1; 2; 192; 0; 2; 1; 0; 100])
+  /\ wf_srp (SrP true 1 2 1) /\ Known_C17_rtc (RtcExact 1 [3; 2; 0; 0; 0; 0; 0; 0]).
+Proof.
+  split; [cbn; unfold u32_ok; repeat split; try lia; repeat constructor; lia|].
+  split; [cbn; intros [H|H]; [lia|apply H; reflexivity]|].
+  split; [cbn; unfold u32_ok; repeat split; lia|cbn; left; lia].
+Qed.
